@@ -43,7 +43,14 @@ func runSharedInformerLifetime(c *eng.Ctx, r *eng.RuleCtx) {
 			}
 			n++
 			ok2 := false
-			if d, isC := ast.Unparen(call.Args[0]).(*ast.CallExpr); isC && len(d.Args) == 0 {
+			arg := call.Args[0]
+			if lv, isV := eng.SelObj(info, arg).(*types.Var); isV && !lv.IsField() {
+				// a local assigned once from the channel expression
+				if as := eng.AssignedExprs(info, f.Decl.Body, lv); len(as) == 1 {
+					arg = as[0]
+				}
+			}
+			if d, isC := ast.Unparen(arg).(*ast.CallExpr); isC && len(d.Args) == 0 {
 				if s, isS := ast.Unparen(d.Fun).(*ast.SelectorExpr); isS && s.Sel.Name == "Done" && eng.IsField(info, s.X, fctx) {
 					ok2 = true
 				}
@@ -110,15 +117,7 @@ func runSharedInformerLifetime(c *eng.Ctx, r *eng.RuleCtx) {
 			g = p.GraphOfLit(s.InLit)
 		}
 		n := g.NodeOf(s.Call)
-		empty := g.FactEdge(func(fc eng.Fact) bool {
-			x, y, eq, ok := eng.EqAtom(fc)
-			if !ok || !eq {
-				return false
-			}
-			k, isK := eng.ConstInt(info, y)
-			cl := builtinCall(info, x, "len")
-			return isK && k == 0 && cl != nil && len(cl.Args) == 1 && eng.IsField(info, cl.Args[0], regs)
-		})
+		empty := g.FactEdge(func(fc eng.Fact) bool { return emptyLenOf(info, fc, regs) })
 		r.Check(n != nil && g.OnlyVia(n, nil, empty), s.Where()+" cancels the factory only when unused", s.Call.Pos(), "cancel() under len(handlerRegistrations) == 0",
 			"the shared informer is cancelled while handlers of other bindings are still registered on it")
 	}
